@@ -53,10 +53,21 @@ BASE_S = (0x1111, 0x2222, 0x3333, 0x4444)
 BASE_E = (0, 0x55, 0x66, 0x77)
 
 
+class NamesShownForARecordThatIsNoCall(Exception):
+    pass
+
+
 def render(decoder, shape, s, e=BASE_E):
     p = TracesParser(E.codes(), {}, {})
-    evs = [E.ev(decoder, 1, s), E.ev(decoder, 2, e)] if shape == 'se' else [E.ev(decoder, 0, s)]
+    if shape == 'se':
+        # the call is preceded by the END record of a call whose START fell before the capture; its words are the complement of
+        # the judged START words, so any name it contributes is a name of a bit NOT set in the judged word
+        evs = [E.ev(decoder, 2, tuple(~x & M64 for x in s)), E.ev(decoder, 1, s), E.ev(decoder, 2, e)]
+    else:
+        evs = [E.ev(decoder, 0, s)]
     out = [t for t in p.feed_generator(E.restamp(evs)) if t.ktraces[0].eventid == evs[0].eventid]
+    if len(out) != 1:
+        raise NamesShownForARecordThatIsNoCall(f'{len(out)} traces for one call: ' + ' | '.join(E.stable_str(t) for t in out)[:200])
     return E.stable_str(out[-1])
 
 
@@ -246,7 +257,7 @@ class C11(Check):
             'open flags (3 call sites; 7 further sites from the frozen site table with Hamming balls of radius 2): every subset of 12 flag bits + 2 access-mode bits + 2 undeclared; file modes (3 call '
             'sites; 5 further sites likewise): every subset of the 12 permission bits x all 16 values of the S_IFMT field x 1 undeclared bit; packed fields '
             '(VM_PROT byte: all 256 values, also as shown by page-fault traces in pairs of windows; KPERF_TI 16-bit field); ioctl: all 2^16 values of the high half x 4 low halves and of '
-            'the low half x 8 high halves. Oracle: shown names subset of Darwin names whose value intersects the word; every '
+            'the low half x 8 high halves. Every START/END call is preceded by the END record of a call whose START fell before the capture, carrying the complement of the judged words: it must print nothing. Oracle: shown names subset of Darwin names whose value intersects the word; every '
             'declared name (frozen enum names) whose Darwin bit is set is shown; multi-bit fields show exactly Darwin\'s name for '
             'the value; ioctl fields invert _IOC. Distinct by construction; non-trivial = at least two declared bits set (or, for '
             'ioctl, a word in the image of _IOC).')
